@@ -42,7 +42,7 @@ PROPS["C07"] = dict(
         "model:announce-on-syn": 8000, "model:announce-on-data(partial)": 3000, "model:packet-of-untracked-connection": 100000, "chk:packets-of-partial-streams": 50000,
         "close:fin-fin": 2500, "close:rst-by-client": 800, "close:rst-by-server": 800, "close:fin-then-rst-same-side": 800, "close:fin-then-rst-other-side": 800,
         "close:first-fin-keeps-connection": 5000, "timeout:of-half-closed": 500,
-        "limit:chunks-crossed": 40, "limit:bytes-crossed": 10, "limit:sack-crossed": 50,
+        "limit:chunks-crossed": 40, "limit:bytes-crossed": 10, "pkt:ecn-setup-syn": 500, "limit:sack-crossed": 50,
         "limit:at-exactly-512-chunks-kept": 100, "limit:at-exactly-3MiB-kept": 40, "limit:at-exactly-1024-sacked-kept": 100,
         "timeout:reported-idle>keepalive": 5000, "timeout:idle>keepalive-not-yet-swept": 100000, "final-sweep:connections-flushed": 300,
         "final-sweep:by-new-connection": 500, "final-sweep:by-untracked-packet": 500,
